@@ -69,11 +69,10 @@ Qed.
 Lemma validate_tree_coh : forall sk sbs sdv snm ses v p d self' r,
   coh p d (Node sk sbs sdv snm ses) = true ->
   coh [] None v = true ->
-  (sbs = [] \/ prefixb sbs (tshape v) = true \/ hollow_free v = true) ->
   validate_tree (Node sk sbs sdv snm ses) v = (self', r) ->
   coh p d self' = true /\ thdr self' = Some (sk, sbs, sdv) /\ (forall t, r = Ok t -> coh sbs sdv t = true).
 Proof.
-  intros sk sbs sdv snm ses v p d self' r Hself Hv Hpre Hval.
+  intros sk sbs sdv snm ses v p d self' r Hself Hv Hval.
   assert (Htriv : coh p d (Node sk sbs sdv snm ses) = true /\ thdr (Node sk sbs sdv snm ses) = Some (sk, sbs, sdv)) by (split; [exact Hself|reflexivity]).
   unfold validate_tree in Hval. cbv beta iota zeta in Hval.
   (* stage 1: shape *)
@@ -85,12 +84,9 @@ Proof.
     - apply andb_true_iff in Ec as [Ec1 Ec2]. apply negb_true_iff in Ec1, Ec2.
       destruct v as [sh dd|vk vbs vdv vnm ves]; [discriminate|].
       destruct (set_bs true (Node vk vbs vdv vnm ves) sbs) as [v' ok] eqn:Es. destruct ok; [|discriminate]. injection E as <-.
-      assert (Hf : hollow_free (Node vk vbs vdv vnm ves) = true).
-      { destruct Hpre as [->|[Hp|Hf]]; [discriminate| |exact Hf]. cbn [tshape] in *. congruence. }
       pose proof (set_bs_ok_shape _ _ _ _ Es eq_refl) as Hsh.
       eapply coh_reprefix; [|rewrite Hsh; apply prefixb_refl].
-      replace v' with (fst (set_bs true (Node vk vbs vdv vnm ves) sbs)) by now rewrite Es.
-      apply set_bs_coh; [exact Hv|exact Hf|intros _; apply prefixb_nil].
+      eapply set_bs_ok_coh; [exact Hv|exact Es|apply prefixb_nil].
     - injection E as <-. apply andb_false_iff in Ec as [Ec|Ec].
       + apply negb_false_iff, Nat.eqb_eq, length_zero_iff_nil in Ec. subst. exact Hv.
       + apply negb_false_iff in Ec. eapply coh_reprefix; eauto. }
@@ -179,24 +175,22 @@ Proof.
     assert (Hokr : forall x, In x r -> value_okb (snd x) = true) by (intros x Hx; apply Hok; now right).
     pose proof (Hok (k, vi) (or_introl eq_refl)) as Hokv. cbn [snd] in Hokv.
     assert (Hstep : forall t1, coh [] None t1 = true ->
-              (bs = [] \/ prefixb bs (tshape t1) = true \/ hollow_free t1 = true) ->
               (let '(acc', rt) := validate_tree acc t1 in
                match rt with Ok t' => conv_go self r (store acc' k t') | Err => Err | Unm => Unm end) = Ok t ->
               self_coh bs dv t).
-    { intros t1 Ht1 Hpre Hgo. destruct Hacc as [Ha Hh]. destruct acc as [|ak abs adv anm aes]; [discriminate|].
+    { intros t1 Ht1 Hgo. destruct Hacc as [Ha Hh]. destruct acc as [|ak abs adv anm aes]; [discriminate|].
       cbn in Hh. injection Hh as -> -> ->.
       destruct (validate_tree (Node KTd bs dv anm aes) t1) as [acc' rt] eqn:Ev.
-      destruct (validate_tree_coh _ _ _ _ _ _ _ _ _ _ Ha Ht1 Hpre Ev) as (Hc1 & Hh1 & Hr1).
+      destruct (validate_tree_coh _ _ _ _ _ _ _ _ _ _ Ha Ht1 Ev) as (Hc1 & Hh1 & Hr1).
       destruct rt as [t'| |]; try discriminate.
       apply (IHr IHrest Hokr _ Hgo). split; [|now rewrite store_hdr].
       eapply store_coh; eauto. }
     cbn [conv_go] in Hc. destruct vi as [t1|sub|].
-    + cbn [value_okb] in Hokv. apply andb_true_iff in Hokv as [Hv1 Hv2]. apply (Hstep t1); auto.
+    + cbn [value_okb] in Hokv. apply (Hstep t1); auto.
     + destruct (conv (VDict sub) acc) as [t1| |] eqn:Ec; try discriminate.
       pose proof (IHvi acc bs dv t1 Hokv Hacc Ec) as [Hc1 Hh1]. cbn beta iota in Hc1, Hh1.
       apply (Hstep t1); auto.
-      * eapply coh_nodev. eapply coh_weaken; [exact Hc1|apply prefixb_nil].
-      * right. left. destruct t1; [discriminate|]. cbn in Hh1. injection Hh1 as -> -> ->. cbn. apply prefixb_refl.
+      eapply coh_nodev. eapply coh_weaken; [exact Hc1|apply prefixb_nil].
     + apply (IHr IHrest Hokr _ Hc). destruct Hacc as [Ha Hh]. split; [|now rewrite store_hdr].
       eapply store_coh; eauto. apply self_coh_nt. now split.
 Qed.
@@ -211,13 +205,11 @@ Proof.
   assert (Hself : self_coh bs dv (Node KTd bs dv nm es)).
   { split; [|reflexivity]. apply coh_node_iff in Hc as (_ & _ & H3 & H4). apply coh_node_iff. repeat split; auto using prefixb_refl, dev_ok_self. }
   destruct v as [t0|items|]; cbn [prep] in Hp.
-  - cbn [value_okb] in Hok. apply andb_true_iff in Hok as [Hv1 Hv2].
-    eapply validate_tree_coh; eauto.
+  - cbn [value_okb] in Hok. eapply validate_tree_coh; eauto.
   - destruct (conv (VDict items) (Node KTd bs dv nm es)) as [t1| |] eqn:Ec.
     + pose proof (conv_coh _ _ _ _ _ Hok Hself Ec) as [Hc1 Hh1].
       eapply validate_tree_coh; eauto.
-      * eapply coh_nodev. eapply coh_weaken; [exact Hc1|apply prefixb_nil].
-      * right. left. destruct t1; [discriminate|]. cbn in Hh1. injection Hh1 as -> -> ->. cbn. apply prefixb_refl.
+      eapply coh_nodev. eapply coh_weaken; [exact Hc1|apply prefixb_nil].
     + injection Hp as <- <-. repeat split; auto. discriminate.
     + injection Hp as <- <-. repeat split; auto. discriminate.
   - injection Hp as <- <-. repeat split; auto. intros t [= <-]. apply (self_coh_nt bs dv (Node KTd bs dv nm es) Hself).
